@@ -30,7 +30,9 @@ NEXT TNext
 # reduced alphabet for disassembly lines: one or two representatives per class, both channels, field 2, unknowns
 ALPHABET = [0x0000, 0x8080, 0x4142, 0x4100, 0xC1C2, 0x2A5C, 0x9140, 0x1952, 0x1570, 0x9470, 0x1120, 0x192F,
             0x1420, 0x942C, 0x1C2F, 0x152D, 0x1721, 0x1F23, 0x1020, 0x172E, 0x1F2D, 0x1130, 0x1939, 0x1220, 0x1B3F,
-            0x1400, 0x1630, 0x0141, 0x1060]
+            0x1400, 0x1630, 0x0141, 0x1060,
+            # the same code addressed to the other channel / field (must not be rendered like its neighbour)
+            0x1C20, 0x1520, 0x1940, 0x9137, 0x1937, 0x1A20]
 
 
 def colour_name(c):
